@@ -13784,6 +13784,39 @@ func ruleContextResetBeforeUse(c *Ctx) {
 					})
 				}
 			}
+			// the older idiom: for k := range m { delete(m, k) } - the loop head is the reset (an empty map needs no pass)
+			ast.Inspect(fd.Decl.Body, func(x ast.Node) bool {
+				rs, ok := x.(*ast.RangeStmt)
+				if !ok {
+					return true
+				}
+				se, ok := ast.Unparen(rs.X).(*ast.SelectorExpr)
+				if !ok || info.ObjectOf(se.Sel) != mf || len(rs.Body.List) != 1 {
+					return true
+				}
+				es, ok := rs.Body.List[0].(*ast.ExprStmt)
+				if !ok {
+					return true
+				}
+				call, ok := es.X.(*ast.CallExpr)
+				if !ok || len(call.Args) != 2 {
+					return true
+				}
+				if id, ok := call.Fun.(*ast.Ident); !ok || id.Name != "delete" {
+					return true
+				}
+				for _, b := range f.G.Blocks {
+					if !b.Live {
+						continue
+					}
+					for i, nd := range b.Nodes {
+						if nd == ast.Node(rs.X) || containsNode(nd, rs.X) {
+							resets = append(resets, site{b, i, nd, nil})
+						}
+					}
+				}
+				return true
+			})
 			key := fmt.Sprintf("context-reset-before-use:%s.%s", fd.Decl.Name.Name, mf.Name())
 			ok, path := f.mustBefore(f.Entry(), workers, resets, nil)
 			if ok && len(resets) > 0 {
@@ -13809,22 +13842,53 @@ func ruleDecodeRefreshesCache(c *Ctx) {
 			continue
 		}
 		info := fd.Pkg.TypesInfo
+		// an assignment of the cached hash none of whose enclosing conditions asks about the cache itself
 		assignsUnconditionally := func(d *FuncDecl) bool {
 			if d == nil || d.Decl.Body == nil {
 				return false
 			}
-			for _, st := range d.Decl.Body.List {
-				if as, ok := st.(*ast.AssignStmt); ok {
-					for _, l := range as.Lhs {
-						if se, ok := ast.Unparen(l).(*ast.SelectorExpr); ok && se.Sel.Name == "hash" {
-							if v, ok := d.Pkg.TypesInfo.ObjectOf(se.Sel).(*types.Var); ok && v.IsField() {
+			isHashField := func(e ast.Expr) bool {
+				se, ok := ast.Unparen(e).(*ast.SelectorExpr)
+				if !ok || se.Sel.Name != "hash" {
+					return false
+				}
+				v, ok := d.Pkg.TypesInfo.ObjectOf(se.Sel).(*types.Var)
+				return ok && v.IsField()
+			}
+			found := false
+			var stack []ast.Node
+			ast.Inspect(d.Decl.Body, func(x ast.Node) bool {
+				if x == nil {
+					stack = stack[:len(stack)-1]
+					return true
+				}
+				stack = append(stack, x)
+				as, ok := x.(*ast.AssignStmt)
+				if !ok {
+					return true
+				}
+				for _, l := range as.Lhs {
+					if !isHashField(l) {
+						continue
+					}
+					asks := false
+					for _, p := range stack {
+						if is, ok := p.(*ast.IfStmt); ok {
+							ast.Inspect(is.Cond, func(y ast.Node) bool {
+								if e, ok := y.(ast.Expr); ok && isHashField(e) {
+									asks = true
+								}
 								return true
-							}
+							})
 						}
 					}
+					if !asks {
+						found = true
+					}
 				}
-			}
-			return false
+				return true
+			})
+			return found
 		}
 		refreshed := assignsUnconditionally(fd)
 		var called []string
